@@ -109,6 +109,12 @@ func (in *instrumenter) reads(e ast.Expr, a *accSet) {
 			return
 		}
 		if s, ok := x.(*ast.SelectorExpr); ok {
+			if v := in.varOf(s.X); v != "" && !strings.HasPrefix(v, "wordlist.") {
+				// field of a package-level struct variable: its own location, so that different
+				// fields guarded by different locks are not mistaken for one
+				a.add(v+"."+s.Sel.Name, 'R')
+				return
+			}
 			in.reads(s.X, a)
 		}
 	case *ast.ParenExpr:
@@ -230,7 +236,10 @@ func (in *instrumenter) writes(lhs ast.Expr, alsoRead bool, a *accSet) {
 			return
 		}
 		if v := in.varOf(x.X); v != "" {
-			a.add(v, 'W') // field of a package-level struct variable
+			a.add(v+"."+x.Sel.Name, 'W') // field of a package-level struct variable
+			if alsoRead {
+				a.add(v+"."+x.Sel.Name, 'R')
+			}
 			return
 		}
 		in.reads(x.X, a)
